@@ -371,6 +371,9 @@ func inferFunc(pkg *Package, fn *internal.Elem, sig *types.Signature, targs []ty
 	}
 	xlist := make([]*operand, len(args))
 	for i, arg := range args {
+		if arg.Type == nil { // e.g. a call of a function without results
+			return nil, nil, fmt.Errorf("%s (no value) used as value", exprString(arg.Val))
+		}
 		xlist[i] = &operand{
 			mode: value,
 			expr: arg.Val,
@@ -385,16 +388,12 @@ func inferFunc(pkg *Package, fn *internal.Elem, sig *types.Signature, targs []ty
 			goto retry
 		case *inferFuncType:
 			xlist[i].typ = t.typ
-			if tp := t.typ.TypeParams(); tp != nil {
-				for i := 0; i < tp.Len(); i++ {
-					tparams = append(tparams, tp.At(i))
-				}
+			if tparams, err = appendArgTypeParams(fn, n, tparams, t.typ.TypeParams()); err != nil {
+				return nil, nil, err
 			}
 		case *types.Signature:
-			if tp := t.TypeParams(); tp != nil {
-				for i := 0; i < tp.Len(); i++ {
-					tparams = append(tparams, tp.At(i))
-				}
+			if tparams, err = appendArgTypeParams(fn, n, tparams, t.TypeParams()); err != nil {
+				return nil, nil, err
 			}
 		}
 	}
@@ -404,6 +403,28 @@ func inferFunc(pkg *Package, fn *internal.Elem, sig *types.Signature, targs []ty
 	}
 	typ, err := types.Instantiate(pkg.cb.ctxt, sig, targs[:n], true)
 	return targs, typ, err
+}
+
+// appendArgTypeParams adds the type parameters of a generic function argument to the type
+// parameters to infer (once, if the same generic function is passed several times). An
+// argument that shares a type parameter with the called function itself (n is the number of
+// its type parameters), as in id(id), makes a type parameter depend on itself, which
+// inference cannot resolve (it would not terminate).
+func appendArgTypeParams(fn *internal.Elem, n int, tparams []*types.TypeParam, tp *types.TypeParamList) ([]*types.TypeParam, error) {
+next:
+	for i, ntp := 0, tp.Len(); i < ntp; i++ {
+		t := tp.At(i)
+		for j, old := range tparams {
+			if old == t {
+				if j < n {
+					return nil, fmt.Errorf("in call to %s, cannot infer %v", exprString(fn.Val), t)
+				}
+				continue next
+			}
+		}
+		tparams = append(tparams, t)
+	}
+	return tparams, nil
 }
 
 // checkInferArgs checks the number of arguments and returns the parameters the arguments are to
